@@ -136,6 +136,7 @@ class Evaluator:
                 if isinstance(v, type):
                     self.classes.setdefault(n, v)
         self.universe = None
+        self.ghost_funcs = {}
 
     def cls(self, name):
         if name in self.classes:
@@ -357,6 +358,10 @@ class Evaluator:
                 return type(v) is self.cls(a[1].id)
             if name == 'as_':
                 return self.ev(a[0], env, snap, old)
+            if name == 'uf':
+                return self.ghost_funcs[vals[0]](*vals[1:])
+            if name == 'allocated' or name == 'fresh_obj':
+                return True
             if name == 'some':
                 return vals[0]
             if name == 'nothing':
@@ -429,7 +434,10 @@ class Universe:
             return
         self.objs.append(v)
         if is_recordish(v):
-            self.idents.add(ident_of(v))
+            try:
+                self.idents.add(ident_of(v))
+            except AttributeError:
+                pass        # an object still under construction (self of __init__)
         names = []
         for c in type(v).__mro__:
             names.extend(getattr(c, '__slots__', ()) or ())
@@ -506,7 +514,12 @@ def check_call(contract, func, kwargs, spec_funcs, describe=None, exc_lattice=No
     snap = Snapshot()
     for v in kwargs.values():
         snap.visit(v)
-    desc = describe(kwargs) if describe else {k: repr(v)[:300] for k, v in kwargs.items()}
+    def safe_repr(v):
+        try:
+            return repr(v)[:300]
+        except Exception:
+            return '<%s under construction>' % type(v).__name__
+    desc = describe(kwargs) if describe else {k: safe_repr(v) for k, v in kwargs.items()}
     raised = None
     result = None
     try:
